@@ -172,7 +172,8 @@ func (s *Solver) Text(t *Term) string {
 	}
 	sb.WriteByte(')')
 	str := sb.String()
-	if len(str) > 120 {
+	isBV := (strings.HasPrefix(t.op, "bv") && t.op != "bv2nat") || strings.HasPrefix(t.op, "(_ int2bv")
+	if len(str) > 120 && !isBV {
 		if s.level != 1 {
 			panic("solver: define outside path level")
 		}
